@@ -2,6 +2,7 @@ package vc
 
 import (
 	"fmt"
+	"go/token"
 	"go/types"
 	"sort"
 	"strings"
@@ -45,6 +46,17 @@ func (f *Frame) call(ins ssa.CallInstruction, st State) (State, Val) {
 		if fc := f.w.NamedC[key]; fc != nil {
 			f.safety("nil", st, Ne(fv.T, IntLit(0)), "call of nil function value at "+f.pos(ins))
 			return f.applyContractFn(fc, nil, key, fv.T, args, sig, st, ins)
+		}
+	}
+	// a function-valued struct field with a contract (`functype T.field(self, args)`):
+	// every value stored there is checked to be a method of the SAME object that
+	// refines the contract (see fieldFuncStoreCheck), so a call through the field
+	// is a call of such a method on the object holding the field
+	if key, self, ok := f.fieldFuncKey(common.Value); ok {
+		if fc := f.w.NamedC[key]; fc != nil {
+			f.safety("nil", st, Ne(fv.T, IntLit(0)), "call of nil function value at "+f.pos(ins))
+			all := append([]Val{self}, args...)
+			return f.applyContractFn(fc, nil, key, Term{}, all, sig, st, ins)
 		}
 	}
 	// closure created in this frame and called here
@@ -375,7 +387,15 @@ func (f *Frame) bindContractNames(fc *FuncContract, callee *ssa.Function, fnVal 
 			pnames = append(pnames, p.Name())
 		}
 	} else {
-		if sig.Recv() != nil || len(args) == sig.Params().Len()+1 {
+		if fc.Kind == "functype" && strings.Contains(fc.Target, ".") && len(args) == sig.Params().Len()+1 && len(fc.Params) > 0 {
+			// contract of a function-valued struct field: first arg is the struct pointer
+			pnames = append(pnames, fc.Params[0].Name)
+			var st types.Type = types.NewInterfaceType(nil, nil)
+			if t, err := f.w.ResolveType("*"+fc.Target[:strings.Index(fc.Target, ".")], fc.ScopePkg); err == nil {
+				st = t
+			}
+			ptypes = append(ptypes, st)
+		} else if sig.Recv() != nil || len(args) == sig.Params().Len()+1 {
 			// interface method: first arg is the receiver (interface value)
 			pnames = append(pnames, "self")
 			ptypes = append(ptypes, types.NewInterfaceType(nil, nil))
@@ -409,6 +429,17 @@ func (f *Frame) bindContractNames(fc *FuncContract, callee *ssa.Function, fnVal 
 	if len(fc.Params) > 0 && off >= 0 {
 		for i, p := range fc.Params {
 			bind(p.Name, args[off+i], ptypes[off+i])
+		}
+	}
+	// a function that refines a functype contract: the functype's parameter names
+	// alias the function's parameters (receiver first) positionally
+	if fc.Refines != "" {
+		if base := f.w.findFuncType(fc.Refines, fc.ScopePkg); base != nil && len(base.Params) == len(args) {
+			for i, p := range base.Params {
+				if _, have := vars[p.Name]; !have {
+					bind(p.Name, args[i], ptypes[i])
+				}
+			}
 		}
 	}
 	// a method that implements an interface contract: the interface contract's
@@ -1497,4 +1528,96 @@ func derivesFromParam(v ssa.Value, depth int) bool {
 		return derivesFromParam(x.X, depth+1)
 	}
 	return false
+}
+
+// fieldFuncKey: v is a load of a function-valued field of a named struct; the
+// key of a contract for that field and the struct pointer.
+func (f *Frame) fieldFuncKey(v ssa.Value) (string, Val, bool) {
+	ld, ok := v.(*ssa.UnOp)
+	if !ok || ld.Op != token.MUL {
+		return "", Val{}, false
+	}
+	fa, ok := ld.X.(*ssa.FieldAddr)
+	if !ok {
+		return "", Val{}, false
+	}
+	return f.fieldFuncKeyOfAddr(fa)
+}
+
+func (f *Frame) fieldFuncKeyOfAddr(fa *ssa.FieldAddr) (string, Val, bool) {
+	pt, ok := fa.X.Type().Underlying().(*types.Pointer)
+	if !ok {
+		return "", Val{}, false
+	}
+	nt, ok := pt.Elem().(*types.Named)
+	if !ok || nt.Obj().Pkg() == nil {
+		return "", Val{}, false
+	}
+	st, ok := nt.Underlying().(*types.Struct)
+	if !ok {
+		return "", Val{}, false
+	}
+	if _, isSig := st.Field(fa.Field).Type().Underlying().(*types.Signature); !isSig {
+		return "", Val{}, false
+	}
+	key := "functype:" + nt.Obj().Pkg().Path() + "." + nt.Obj().Name() + "." + st.Field(fa.Field).Name()
+	self, ok := f.env[fa.X]
+	if !ok || self.Loc != nil {
+		return "", Val{}, false
+	}
+	return key, self, true
+}
+
+// fieldFuncStoreCheck: a value stored into a field that has a functype contract
+// must be a method value x.m with x the very object holding the field and m
+// declared to refine the field's contract.
+func (f *Frame) fieldFuncStoreCheck(ins *ssa.Store) {
+	fa, ok := ins.Addr.(*ssa.FieldAddr)
+	if !ok {
+		return
+	}
+	key, _, ok := f.fieldFuncKeyOfAddr(fa)
+	if !ok || f.w.NamedC[key] == nil {
+		return
+	}
+	name := key[strings.LastIndex(key[:strings.LastIndex(key, ".")], ".")+1:] // Struct.field
+	mc, ok := ins.Val.(*ssa.MakeClosure)
+	if !ok {
+		if c, isConst := ins.Val.(*ssa.Const); isConst && c.IsNil() {
+			return
+		}
+		f.fail("store into %s: the value is not a method value (the field has a functype contract)", name)
+		return
+	}
+	fn := mc.Fn.(*ssa.Function)
+	if !strings.HasPrefix(fn.Synthetic, "bound method wrapper") || len(mc.Bindings) != 1 || mc.Bindings[0] != fa.X {
+		f.fail("store into %s: the method value is not bound to the object holding the field", name)
+		return
+	}
+	obj, _ := fn.Object().(*types.Func)
+	m := f.w.Prog.FuncValue(obj)
+	mfc := f.w.ContractOf(m)
+	if mfc == nil || mfc.Refines != name {
+		f.fail("store into %s: method %s does not declare `refines %s`", name, fnDisplay(m), name)
+	}
+}
+
+// fieldFuncKeyStatic: like fieldFuncKeyOfAddr but without needing the symbolic value of the base.
+func (f *Frame) fieldFuncKeyStatic(fa *ssa.FieldAddr) (string, bool, bool) {
+	pt, ok := fa.X.Type().Underlying().(*types.Pointer)
+	if !ok {
+		return "", false, false
+	}
+	nt, ok := pt.Elem().(*types.Named)
+	if !ok || nt.Obj().Pkg() == nil {
+		return "", false, false
+	}
+	st, ok := nt.Underlying().(*types.Struct)
+	if !ok {
+		return "", false, false
+	}
+	if _, isSig := st.Field(fa.Field).Type().Underlying().(*types.Signature); !isSig {
+		return "", false, false
+	}
+	return "functype:" + nt.Obj().Pkg().Path() + "." + nt.Obj().Name() + "." + st.Field(fa.Field).Name(), true, true
 }
